@@ -10,7 +10,7 @@ from .analysis_scope import IDX, RAW, analyse_function
 from .core import Result, finding, norm_construct
 from .model import Repo
 from .poly import A, C, Frac, ONE, ZERO, mk_fn
-from .structure import call_name, call_target, calls_in, is_subsequence, path_calls, stmt_paths
+from .structure import call_name, call_target, calls_in, canon_ifexp, is_subsequence, path_calls, stmt_paths
 
 RULE = "R-CONTRACT"
 
@@ -96,8 +96,8 @@ def check_wrappers(prop: str, res: Result, repo: Repo):
     for nm in ("reading", "reading_period", "candles_sum"):
         m = repo.method("hexital.core.indicator", "Indicator", nm)
         exprs = [n for n in ast.walk(m.node) if isinstance(n, ast.IfExp)]
-        idx_ok = any(ast.unparse(e.test) == "index is not None" and ast.unparse(e.body) == "index" and ast.unparse(e.orelse) == "self._active_index" for e in exprs)
-        name_ok = any(ast.unparse(e.body) == "name" and ast.unparse(e.orelse) == "self.name" for e in exprs)
+        idx_ok = any(canon_ifexp(e) == ("index is not None", "index", "self._active_index") for e in exprs)
+        name_ok = any(canon_ifexp(e) == ("name", "name", "self.name") for e in exprs)
         if idx_ok and name_ok:
             res.ok(RULE, {"wrapper": f"Indicator.{nm}", "forwards": "index if index is not None else self._active_index; name if name else self.name"}, nontrivial=f"wrapper:{nm}")
         else:
@@ -135,8 +135,16 @@ def check_set_reading(prop: str, res: Result, repo: Repo):
     else:
         res.fail(RULE, finding(prop, RULE, sr, sr.node, "Managed.set_reading must store at self._active_index", construct="set_reading: target index"))
     st = repo.method("hexital.core.indicator", "Indicator", "_set_reading")
-    t = ast.unparse(st.node)
-    if "if self._sub_indicator:" in t and "self.candles[index].sub_indicators[self.name] = reading" in t and "self.candles[index].indicators[self.name] = reading" in t:
+    from .structure import canon_if
+
+    ok_sr = False
+    for n in ast.walk(st.node):
+        if isinstance(n, ast.If):
+            tst, then, other = canon_if(n)
+            if ast.unparse(tst) == "self._sub_indicator":
+                tt, ot = " ; ".join(ast.unparse(x) for x in then), " ; ".join(ast.unparse(x) for x in other)
+                ok_sr = "self.candles[index].sub_indicators[self.name] = reading" in tt and "self.candles[index].indicators[self.name] = reading" in ot and "sub_indicators" not in ot
+    if ok_sr:
         res.ok(RULE, {"helper": "Indicator._set_reading", "writes": "helper readings to sub_indicators, top-level readings to indicators, keyed by self.name"}, nontrivial="_set_reading")
     else:
         res.fail(RULE, finding(prop, RULE, st, st.node, "_set_reading must store helper readings in candle.sub_indicators and top-level readings in candle.indicators under self.name", construct="_set_reading: targets"))
